@@ -13,7 +13,7 @@ TEXT = {
     "C07": "All 4^n decision functions of ecs_iter_destroy! are transitions of the explored graph (typed and multi-archetype scopes), so loops start from churned, grown and refilled layouts and are followed by further exploration. A whole-population leg (2^16+1 and 2^20+1 entities, thorough also 2^24; plus an archetype whose columns are all zero-sized) sweeps every handle ever issued through every lookup path after every phase of a scripted history.",
     "C08": "A world-wide set of issued handles is kept by the reference; every create in every history must return a value outside it; hook H2 places the generations just below 2^32-1 so that histories cross the overflow boundary (thorough: a hook-free run of 2^32-1 real cycles). A whole-population leg (2^16+1 and 2^20+1 entities, thorough also 2^24; plus an archetype whose columns are all zero-sized) sweeps every handle ever issued through every lookup path after every phase of a scripted history.",
     "C09": "Inductive formulation evaluated on every transition (every direct handle valid before the step is afterwards dead iff the step removed from its archetype), at every minting route, and over a per-state (index, version) universe.",
-    "C10": "A panic at every callback point (closure of each macro, k-th Clone, k-th Drop in destroy / ecs_iter_destroy! / world drop, borrow conflict, version overflows) is a transition; afterwards the exploration continues and all other oracles keep being evaluated.",
+    "C10": "A panic at every callback point (closure of each macro, k-th Clone, k-th Drop in destroy / ecs_iter_destroy! / world drop, borrow conflict, version overflows) is a transition; afterwards the exploration continues and all other oracles keep being evaluated. The closure-panic case is repeated in the middle of a destroying pass over 2^16+1 and 2^20+1 entities, followed by a sweep of every handle ever issued.",
     "C11": "Complete matrix of nested runtime-borrowed accesses up to the depth bound against a reader/writer table; after every cell, unwound or not, no guard may be left behind.",
     "C12": "len/capacity arithmetic after every step of every history from capacities 0..4; in every state each archetype is refilled to exactly capacity() with create_within_capacity and one more attempt must fail; free-list shape via hook H1. A whole-population leg (2^16+1 and 2^20+1 entities, thorough also 2^24; plus an archetype whose columns are all zero-sized) sweeps every handle ever issued through every lookup path after every phase of a scripted history.",
     "C13": "clone() is a transition from every reachable state; the two worlds are then driven through all diverging histories against two independent copies of the reference, with equal representation at the split, and both are refilled to capacity. A whole-population leg (2^16+1 and 2^20+1 entities, thorough also 2^24; plus an archetype whose columns are all zero-sized) sweeps every handle ever issued through every lookup path after every phase of a scripted history.",
